@@ -788,6 +788,7 @@ func (p *Parser[V]) Parse(str string, idents Identifiers[V]) (ast AST, err error
 			SetComments(p.allowComments).
 			SetComfort(p.comfort).
 			Start()
+	defer tokenizer.Stop()
 
 	ast, err = p.parseLet(tokenizer, idents)
 	if err != nil {
